@@ -6,15 +6,15 @@ SPEC = {
     "bins": ["c01"],
     "model_targets": ["Pat/C01Check.vo"],
     "proof_targets": ["Pat/MatcherProofs.vo", "Pat/ModifiersProofs.vo", "Pat/MatchListProofs.vo",
-                      "Pat/C01CheckProofs.vo", "Pat/Base64Proofs.vo", "Pat/ChainProofs.vo", "Pat/PipelineProofs.vo", "Pat/AtomsProofs.vo", "Pat/PipelineB64Proofs.vo", "Pat/ChainRunProofs.vo", "Pat/ChainCompleteProofs.vo", "Pat/PipelineB64CompleteProofs.vo"],
+                      "Pat/C01CheckProofs.vo", "Pat/Base64Proofs.vo", "Pat/ChainProofs.vo", "Pat/PipelineProofs.vo", "Pat/AtomsProofs.vo", "Pat/PipelineB64Proofs.vo", "Pat/ChainRunProofs.vo", "Pat/ChainCompleteProofs.vo", "Pat/PipelineB64CompleteProofs.vo", "Pat/ChainEndProofs.vo"],
     "assumptions": [
         "the specification of occurrences (Pat/Sem.v, Pat/Modifiers.v) is written from text_patterns.md, hex_patterns.md, regexps.md, differences.md; "
         "where they are silent it accepts the implementation: the neighbouring character of a wide string for fullword, which of several genuine "
         "lengths a regexp reports, assertions inside wide regexps (not generated), base64 occurrences whose 4-character window does not decode",
         "literal family (Literal, LiteralWithMask, Xor, Base64*): handle_atom_match / verify_* are modelled (Pat/Pipeline.v) and proved equal to the "
         "reference under atoms_ok, which K stream (d) evaluates on the REAL sub-patterns and atoms of the compiled rules (hook Rules::verif_c01_dump); "
-        "the search automaton is assumed to report exactly the atom occurrences (hits_exact: any order); for Base64* the model is proved sound (ascii; wide for data "
-        "without '=', refuted otherwise: known finding) and complete for whole-group windows, for proper alphabets without '=' (checked on the dump)",
+        "the search automaton is assumed to report exactly the atom occurrences (hits_exact: any order); for Base64* the model is proved sound (both encodings) "
+        "and complete for whole-group windows, for proper alphabets without '=' (checked on the dump)",
         "chains at run time: handle_sub_pattern_match, within_valid_distance, verify_chain_of_matches (chain_length pruning, greedy reset walk) are "
         "modelled over EVENTS = verified piece matches (Pat/ChainRun.v) and proved sound for every event list and complete on starts for every event "
         "list in which each event starts before the end of every later one (ChainRunProofs, ChainCompleteProofs); K stream (e) feeds the model the REAL "
@@ -22,7 +22,10 @@ SPEC = {
         "kernel that ran produces (start order for the vector kernel, end order for the automaton), the events of literal pieces are what "
         "handle_atom_match derives from the hits, the events of regexp pieces are matches of the piece by the reference matcher (every start "
         "covered), the events satisfy the order hypothesis, and the bookkeeping reproduces the reported list exactly. How verify_regexp picks the "
-        "end of a regexp piece (one per atom hit) is observed, not modelled: the abstract reading 'one end per start' is refuted for completeness",
+        "end of a regexp piece (one per atom hit) is observed; for the pieces run by the FastVM whose atoms have no backward code K checks that it is "
+        "the end the abstract piece matcher picks (one end per start: the shortest for a lazy pattern, the longest for a greedy one), the reading "
+        "that is refuted for completeness; which end is reported per start is proved for lazy chains (the shortest, ChainEndProofs) and refuted "
+        "as 'the longest' for greedy ones (the end of the last closing piece match in arrival order stays: undocumented, accepted)",
         "the Thompson/PikeVM/FastVM engines, Teddy and Aho-Corasick are not modelled: they are tied to the specification only by the "
         "differential streams (every reported match checked by genuine_b, every required start looked for)",
         "Vec growth policy and slice::binary_search_by are trusted std behaviour (modelled literally; search_std_eq proves the abstraction used)",
@@ -64,7 +67,7 @@ SYMPTOMS = [(1, "panic-or-bytes"), (2, "unsound"), (4, "order"), (8, "missed"), 
             (512, "hits-not-the-atom-occurrences-in-kernel-order"),
             (1024, "chain:pieces-differ-from-split-model"), (2048, "chain:atoms_ok-false-on-real-atoms"), (4096, "chain:hits-not-the-atom-occurrences-in-kernel-order"),
             (8192, "chain:literal-piece-matches-differ-from-model"), (16384, "chain:regexp-piece-matches-not-the-reference's"), (32768, "chain:bookkeeping-model-differs"),
-            (65536, "chain:events-not-in-an-order-a-kernel-produces"), (131072, "byte-gap-reading-of-wide-chain")]
+            (65536, "chain:events-not-in-an-order-a-kernel-produces"), (131072, "chain:end-of-forward-only-fastvm-piece-not-the-abstract-matchers"), (262144, "byte-gap-reading-of-wide-chain")]
 
 # root-cause hints computed by the harness from the pattern's AST, most specific first (the defects behind
 # them are repaired: a case classified by one of them is a regression and is reported as a VIOLATION)
@@ -96,8 +99,8 @@ def classify(case):
     # ... or, for a greedy regexp (the LONGEST end is kept), in front of any gap
     if "chain-piece-variable-length-greedy" in tags and sym == "missed":
         return "C01:scan:chain-piece-variable-length-greedy"
-    # known finding: verify_base64 drops a '=' found at an even offset anywhere in a base64wide window (not only
-    # trailing padding), so a window with a '=' in the middle can decode: there is such a '=' close to a reported match
+    # repaired by b2a39c9f (a case classified here is a regression): verify_base64 dropped a '=' found at an even offset
+    # anywhere in a base64wide window (not only trailing padding): there is such a '=' close to a reported match
     if "base64wide" in tags and sym == "unsound":
         data = bytes.fromhex(case.get("data_hex", ""))
         for s_, l_ in rep:
@@ -229,7 +232,7 @@ MANIFEST = {
                    "operation sequences, and the real Scanner's output for generated (pattern, buffer) pairs is checked by the proven checker."),
     "level_note": ("For the literal family (Literal, LiteralWithMask, Xor, anchored) the scan pipeline is modelled and proved equal to the reference "
                    "under atoms_ok, evaluated on the real atoms (pipeline_literal_family, compile_text_spec); for Base64* the pipeline model is compared "
-                   "exactly and proved sound (wide: for data without '=') and complete for whole-group windows. The chain bookkeeping at run time is modelled over verified piece matches and proved sound (every reported match is a "
+                   "exactly and proved sound and complete for whole-group windows. The chain bookkeeping at run time is modelled over verified piece matches and proved sound (every reported match is a "
                    "match of the split pattern, ascii form) and complete on starts for kernel-ordered events; it is compared exactly on the real, "
                    "recorded piece matches. The wide form and the one-end-per-start choice of regexp pieces are REFUTED (known findings). Regexp engines "
                    "(FastVM/PikeVM), Teddy/Aho-Corasick are NOT modelled; they are covered only by the differential streams against the proven reference. "
